@@ -136,10 +136,40 @@ def idempotent(ctx, facts, prefix):
     else:
         # densify itself is a no-op when nb_empty == 0 (DENS-target: all writes under !init[t]), so the guard is optional
         ctx.ok("IDEMPOTENT", fid, "densify called once, under no condition other than nb_empty != 0 (facts: %s)" % fs[:2], hirq.loc(c))
+    # the finisher's failure must be reported: its Result is asserted / unwrapped / propagated, not dropped
+    report_checked(ctx, fn, fid, c)
     # no other effect
     others = [w for (w, f, i) in writes_to_self(fn)]
     if others:
         ctx.violation("IDEMPOTENT", fid, "extra effect", hirq.loc(others[0]), "end_sketch writes `%s`" % nf.nf(others[0])[:50])
+
+
+def report_checked(ctx, fn, fid, call):
+    """the Result of densify() is checked (assert!(res.is_ok()), unwrap/expect, `?`, or returned)"""
+    t = tree_of(fn)
+    par = t.parent.get(id(call))
+    ok = None
+    if par is not None and par["k"] == "MethodCall" and par["recv"] is call and par["name"] in ("unwrap", "expect"):
+        ok = "unwrapped"
+    elif par is not None and par["k"] == "Call" and short(par.get("callee", "")) == "branch":
+        ok = "propagated with ?"
+    elif par is not None and par["k"] in ("Ret",):
+        ok = "returned"
+    elif par is not None and par["k"] == "Let" and par["pat"]["k"] == "Bind":
+        name = par["pat"]["name"]
+        for x in t.nodes:
+            if x["k"] == "If" and hirq.expn(x)[1] in ("macro:assert", "macro:debug_assert") and hirq.expn(x)[1] == "macro:assert" and "%s.is_ok()" % name in nf.nf(x["c"]):
+                ok = "asserted with assert!(%s.is_ok())" % name
+            if x["k"] == "MethodCall" and x["name"] in ("unwrap", "expect") and nf.nf(x["recv"]) == name:
+                ok = "unwrapped"
+            if x["k"] in ("Ret",) and "e" in x and nf.nf(x["e"]) == name:
+                ok = "returned"
+            if x["k"] == "Call" and short(x.get("callee", "")) == "branch" and x["args"] and nf.nf(x["args"][0]) == name:
+                ok = "propagated with ?"
+    if ok:
+        ctx.ok("EMPTY", fid, "the finisher's Result is %s" % ok, hirq.loc(call))
+    else:
+        ctx.violation("EMPTY", fid, "finisher failure dropped", hirq.loc(call), "the Result of densify() is neither asserted, unwrapped, propagated nor returned: on an empty stream the failure is not reported and the sketch is left unfinished")
 
 
 def empty_guard(ctx, facts, prefix):
